@@ -45,11 +45,20 @@ def fpair(x, y=1):
     return (x + y, x - y)
 
 
-FUNCS = {"fpow": fpow, "fadd": fadd, "hyp": math.hypot, "fpair": fpair}
+def fsum(seq):
+    return sum(seq)
+
+
+def fnorm(p):
+    return math.hypot(p.x, p.y)
+
+
+FUNCS = {"fpow": fpow, "fadd": fadd, "hyp": math.hypot, "fpair": fpair, "fsum": fsum, "fnorm": fnorm}
 
 
 class Obj:
-    pass
+    def __repr__(self):          # by content, so that two environments can be compared
+        return "Obj(%r)" % (sorted(vars(self).items()),)
 
 
 # ----------------------------------------------------------------------------
@@ -139,8 +148,11 @@ class Env:
         o = Obj()
         o.u, o.w = 4, 2.5
         o.lst = [1, 2, 3]           # a container that hangs off an attribute
+        o.pos = Obj()               # an object that hangs off an attribute
+        o.pos.x, o.pos.y = 3.0, 4.0
         self.box["o"] = o
         self.r = self.m.ref(self.box, "r")
+        self.ob = self.m.ref(o, "ob")          # the same object also as a TOP-LEVEL container: ob.pos.x has no item owner
         self.f = self.m.ref(dict(FUNCS), "f")
 
     # deferred construction through the user-level operators
@@ -150,6 +162,8 @@ class Env:
             return self.r[t[1]]
         if k == "root":
             return self.r
+        if k == "obroot":
+            return self.ob
         if k == "lit":
             return val_py(t[1])
         if k == "litexpr":
@@ -161,7 +175,10 @@ class Env:
         if k == "builtin":
             return BUILTIN[t[1]](self.build(t[2]), *[self.build(p) for p in t[3]])
         if k == "call":
-            return self.f[t[1]](*[self.build(a) for a in t[2]], **{n: self.build(a) for n, a in t[3]})
+            # the called function: an item of the function container (a ref) or, with a fifth entry "litexpr", a
+            # dependency-free node wrapping the plain callable
+            fn = R.LiteralExpr(FUNCS[t[1]]) if len(t) > 4 and t[4] == "litexpr" else self.f[t[1]]
+            return fn(*[self.build(a) for a in t[2]], **{n: self.build(a) for n, a in t[3]})
         if k == "item":
             return self.build(t[1])[self.build(t[2])]
         if k == "attr":
@@ -175,6 +192,8 @@ class Env:
             return self.box[t[1]]
         if k == "root":
             return self.box
+        if k == "obroot":
+            return self.box["o"]
         if k in ("lit", "litexpr"):
             return val_py(t[1])
         if k == "bin":
@@ -212,7 +231,8 @@ class Env:
             for p in t[3]:
                 self.leaf_refs(p, out)
         elif k == "call":
-            out.add(self.f[t[1]])
+            if not (len(t) > 4 and t[4] == "litexpr"):
+                out.add(self.f[t[1]])          # a function taken from the function container is a location read
             for a in t[2]:
                 self.leaf_refs(a, out)
             for _, a in t[3]:
@@ -230,7 +250,7 @@ class Env:
 
 def has_ref(t):
     k = t[0]
-    if k in ("ref", "root"):
+    if k in ("ref", "root", "obroot"):
         return True
     if k == "lit":
         return False
@@ -1074,6 +1094,14 @@ def cases_c05(rng, n):
               ["item", ["ref", "L"], ["bin", "add", ["litexpr", {"int": 0}], ["bin", "mod", ["ref", "v1"], ["lit", {"int": 3}]]]],
               ["call", "fpow", [["bin", "mul", ["un", "neg", ["litexpr", {"int": 3}]], ["ref", "v1"]]], []],
               ["call", "fpow", [["bin", "mul", ["root"], ["ref", "v1"]]], []],
+              # the called function is itself a node without dependencies (a LiteralExpr around the callable), and the
+              # call is the first thing visited below another node
+              ["bin", "mul", ["call", "fpow", [["ref", "v1"]], [], "litexpr"], ["lit", {"int": 2}]],
+              ["un", "neg", ["call", "fadd", [["ref", "v0"]], [["y", ["ref", "v1"]]], "litexpr"]],
+              ["builtin", "abs", ["call", "fpow", [["ref", "v2"]], [], "litexpr"], []],
+              ["call", "fadd", [["call", "fpow", [["ref", "v1"]], [], "litexpr"]], [["y", ["ref", "v2"]]]],
+              ["item", ["ref", "L"], ["bin", "mod", ["call", "fpow", [["ref", "v1"]], [], "litexpr"], ["lit", {"int": 3}]]],
+              ["call", "fpow", [["ref", "v1"]], [], "litexpr"],
               ["call", "fadd", [["ref", "v0"]], [["y", ["bin", "mul", ["root"], ["ref", "v1"]]]]],
               ["bin", "sub", ["item", ["ref", "L"], ["lit", {"int": -1}]], ["item", ["ref", "L"], ["lit", {"int": -2}]]],
               ["bin", "add", ["bin", "mul", ["lit", {"int": 2}], ["item", ["ref", "L"], ["lit", {"int": -1}]]],
@@ -1127,6 +1155,19 @@ def cases_c13(rng, n):
                     (["bin", "mul", ["item", lst, ["lit", {"int": 1}]], ["lit", {"int": 2}]], 1)]:
         yield {"kind": "genfun", "keep_o": True, "vals": vals0, "defs": [d, ["bin", "add", ["ref", "v0"], ["lit", {"int": 1}]]],
                "args": [[["item", lst, ["lit", {"int": argk}]], {"int": 40}], ["v0", {"float": (2.5).hex()}]]}
+    # a definition that reads, AS A WHOLE (through a function of the function container), a container or an object reached
+    # as an attribute; the argument is a member of it: an enclosing location that is an attribute reference is enclosing all the same
+    pos = ["attr", ["ref", "o"], "pos"]
+    for d, arg in [(["call", "fsum", [lst], []], ["item", lst, ["lit", {"int": 1}]]),
+                   (["bin", "mul", ["call", "fsum", [lst], []], ["ref", "v1"]], ["item", lst, ["lit", {"int": 2}]]),
+                   (["call", "fnorm", [pos], []], ["attr", pos, "x"]),
+                   (["bin", "add", ["call", "fnorm", [pos], []], ["ref", "v2"]], ["attr", pos, "y"]),
+                   # the same below a top-level object container: no item reference among the enclosing locations
+                   (["call", "fnorm", [["attr", ["obroot"], "pos"]], []], ["attr", ["attr", ["obroot"], "pos"], "x"]),
+                   (["call", "fsum", [["attr", ["obroot"], "lst"]], []], ["item", ["attr", ["obroot"], "lst"], ["lit", {"int": 1}]]),
+                   (["bin", "mul", ["call", "fnorm", [["attr", ["obroot"], "pos"]], []], ["ref", "v1"]], ["attr", ["attr", ["obroot"], "pos"], "y"])]:
+        yield {"kind": "genfun", "keep_o": True, "vals": vals0, "defs": [d, ["bin", "add", ["ref", "v0"], ["lit", {"int": 1}]]],
+               "args": [[arg, {"int": 40}], ["v0", {"float": (2.5).hex()}]]}
     # known finding D29: the text of the constant complex(0.0, -2.0) is "-2j", which reads back as complex(-0.0, -2.0)
     yield {"kind": "genfun", "vals": vals0, "defs": [["bin", "truediv", ["lit", {"complex": [(0.0).hex(), (-2.0).hex()]}], ["ref", "v3"]]],
            "args": [["v3", {"int": 1}]]}
